@@ -80,7 +80,7 @@ def split_calls(trace):
 
 
 OBJ_POS = {"op": (5,), "classify": (1, 4), "rclassify": (1, 4), "strategy": (9,),
-           "aend": (7, 8), "thrown": (2,)}
+           "aend": (7, 8), "thrown": (2,), "sleep": (5,)}
 TIME_POS = {"op": (3, 4), "sleep": (3, 4), "consume": (2,), "call": (3,)}
 
 
@@ -120,7 +120,8 @@ def normalize(records, t_base, drop=()):
             r = list(r)
             if op:
                 for p in op:
-                    r[p] = o(r[p])
+                    if p < len(r):
+                        r[p] = o(r[p])
             if tp:
                 for p in tp:
                     if p < len(r) and isinstance(r[p], float):
